@@ -73,7 +73,7 @@ class RefDEVS:
             d = action[1]
             out = REFUSED if (not is_number(d) or d < 0) else \
                 self._request(self.clock + d, action[3], action[2])
-        elif kind == "abs":
+        elif kind in ("abs", "pre"):
             out = self._request(action[1], action[3], action[2])
         elif kind == "bad":
             out = REFUSED
@@ -89,6 +89,9 @@ class RefDEVS:
             return "fail"
         elif kind == "cmd":
             self._cmd_from_handler(action[1], action[2:])
+        elif kind == "strategy":
+            self.strategy = action[1]      # the strategy in force when a handler fails governs
+            out = None
         elif kind == "obs":
             self.obs.append((action[1], action[2],
                              action[3] if len(action) > 3 else None, self.clock))
